@@ -62,6 +62,7 @@ type Sched struct {
 	EngineErr string
 	timers    []*Timer
 	objSeq    int
+	noted     map[interface{}]int // insertion sequence of pointer keys of instrumented maps (see Note)
 }
 
 var cur atomic.Pointer[Sched]
@@ -940,6 +941,29 @@ func Keys[K comparable, V any](m map[K]V) []K {
 		return keys
 	}
 	switch reflect.TypeOf(keys[0]).Kind() {
+	case reflect.Ptr:
+		// pointers have no natural order that is stable across executions: use the order in which the
+		// keys were inserted into instrumented maps (the rewriter announces insertions with Note)
+		seqs := make([]int, len(keys))
+		known := true
+		for i, k := range keys {
+			seqs[i] = noteSeq(k)
+			if seqs[i] < 0 {
+				known = false
+			}
+		}
+		if known {
+			idx := make([]int, len(keys))
+			for i := range idx {
+				idx[i] = i
+			}
+			sort.Slice(idx, func(a, b int) bool { return seqs[idx[a]] < seqs[idx[b]] })
+			out := make([]K, len(keys))
+			for i, j := range idx {
+				out[i] = keys[j]
+			}
+			return out
+		}
 	case reflect.String:
 		sort.Slice(keys, func(i, j int) bool { return reflect.ValueOf(keys[i]).String() < reflect.ValueOf(keys[j]).String() })
 	case reflect.Int, reflect.Int8, reflect.Int16, reflect.Int32, reflect.Int64:
@@ -948,4 +972,33 @@ func Keys[K comparable, V any](m map[K]V) []K {
 		sort.Slice(keys, func(i, j int) bool { return reflect.ValueOf(keys[i]).Uint() < reflect.ValueOf(keys[j]).Uint() })
 	}
 	return keys
+}
+
+// Note records the insertion of a pointer key into an instrumented map (rewritten `x.f[k] = v`
+// statements call it first), so that Keys can iterate in insertion order.
+//
+//go:norace
+func Note(k interface{}) {
+	s := cur.Load()
+	if s == nil {
+		return
+	}
+	if s.noted == nil {
+		s.noted = map[interface{}]int{}
+	}
+	if _, ok := s.noted[k]; !ok {
+		s.noted[k] = len(s.noted)
+	}
+}
+
+//go:norace
+func noteSeq(k interface{}) int {
+	s := cur.Load()
+	if s == nil || s.noted == nil {
+		return -1
+	}
+	if n, ok := s.noted[k]; ok {
+		return n
+	}
+	return -1
 }
